@@ -272,7 +272,7 @@ func (s *shape) referrers(n string) []*node {
 }
 
 var shapeNames = []string{"img", "dup", "idx2", "nested", "art", "artidx", "bentry", "docker", "schema1",
-	"ext", "empty", "inline", "dtag", "loop", "big", "xref"}
+	"ext", "empty", "inline", "dtag", "loop", "diamond", "diamond2", "big", "xref"}
 
 func buildShape(name string) *shape {
 	s := newShape(name)
@@ -366,6 +366,22 @@ func buildShape(name string) *shape {
 		s.addDTag(m, sg, ".sig")
 		s.addDTag(sg, m, ".att")
 		s.Root = "M"
+	case "diamond": // one platform image under two different parent indexes: T -> IA -> {SH, OA}, T -> IB -> {SH, OB}
+		l, la, lb := s.blob("L", 140), s.blob("LA", 90), s.blob("LB", 80)
+		cs, ca, cb := s.config("CS", "amd64"), s.config("CA", "arm64"), s.config("CB", "arm")
+		sh := s.image("SH", false, L(cs), []lref{L(l)}, nil, "")
+		oa := s.image("OA", false, L(ca), []lref{L(la)}, nil, "")
+		ob := s.image("OB", false, L(cb), []lref{L(lb)}, nil, "")
+		ia := s.index("IA", false, []lref{{sh, dopt{plat: "linux/amd64"}}, {oa, dopt{plat: "linux/arm64"}}}, nil, "")
+		ib := s.index("IB", false, []lref{{sh, dopt{plat: "linux/amd64"}}, {ob, dopt{plat: "linux/arm"}}}, nil, "")
+		s.index("T", false, []lref{{ia, dopt{plat: "linux/amd64"}}, {ib, dopt{plat: "linux/amd64"}}}, nil, "")
+		s.Root = "T"
+	case "diamond2": // the same image directly under the top index and below a nested index: T -> {M, I -> {M}}
+		c, l := s.config("C", "amd64"), s.blob("L", 150)
+		m := s.image("M", false, L(c), []lref{L(l)}, nil, "")
+		i := s.index("I", false, []lref{{m, dopt{plat: "linux/amd64"}}}, nil, "")
+		s.index("T", false, []lref{{m, dopt{plat: "linux/amd64"}}, {i, dopt{plat: "linux/amd64"}}}, nil, "")
+		s.Root = "T"
 	case "xref": // two platform images whose referrers are indexes that list the *other* platform image
 		l1 := s.blob("L1", 100)
 		c1, c2 := s.config("C1", "amd64"), s.config("C2", "arm64")
